@@ -456,6 +456,12 @@ fn build_matcher_tree(
     regex_type: &mut regex::RegexType,
 ) -> Result<(usize, Box<dyn Matcher>), Box<dyn Error>> {
     let mut top_level_matcher = ListMatcherBuilder::new();
+    // One entry per "(" that is still open: what had been built before it,
+    // whether the group is negated, where the enclosing group began and
+    // whether that one is waiting for its ")". (Not one recursive call per
+    // "(": some thousand nested parentheses would exhaust the stack.)
+    let mut open_groups: Vec<(ListMatcherBuilder, bool, usize, bool)> = Vec::new();
+    let mut group_start = arg_index;
 
     // can't use getopts for a variety or reasons:
     // order of arguments is important
@@ -839,10 +845,16 @@ fn build_matcher_tree(
                 None
             }
             "(" => {
-                let (new_arg_index, sub_matcher) =
-                    build_matcher_tree(args, config, i + 1, true, regex_type)?;
-                i = new_arg_index;
-                Some(sub_matcher)
+                open_groups.push((
+                    std::mem::replace(&mut top_level_matcher, ListMatcherBuilder::new()),
+                    invert_next_matcher,
+                    group_start,
+                    expecting_bracket,
+                ));
+                invert_next_matcher = false;
+                group_start = i + 1;
+                expecting_bracket = true;
+                None
             }
             ")" => {
                 if !expecting_bracket {
@@ -853,13 +865,20 @@ fn build_matcher_tree(
 
                 // Nothing since the opening parenthesis (not `args[i - 1] == "("`:
                 // that word can be an operand, as in `( -name "(" )`).
-                if i == arg_index {
+                if i == group_start {
                     return Err(From::from(
                         "invalid expression; empty parentheses are not allowed.",
                     ));
                 }
 
-                return Ok((i, top_level_matcher.build()));
+                let Some((enclosing, invert, start, expecting)) = open_groups.pop() else {
+                    return Ok((i, top_level_matcher.build()));
+                };
+                let group = std::mem::replace(&mut top_level_matcher, enclosing);
+                invert_next_matcher = invert;
+                group_start = start;
+                expecting_bracket = expecting;
+                Some(group.build())
             }
             "-follow" => {
                 // This option affects multiple matchers.
